@@ -22,6 +22,9 @@ impl Rng {
     pub fn chance(&mut self, num: usize, den: usize) -> bool {
         self.below(den) < num
     }
+    pub fn pick_str(&mut self, xs: &[&'static str]) -> &'static str {
+        xs[self.below(xs.len())]
+    }
     pub fn pick<'a, T>(&mut self, xs: &'a [T]) -> &'a T {
         &xs[self.below(xs.len())]
     }
